@@ -1,5 +1,5 @@
 # replay of a bounded stand-in violation (C16): re-run native/c16_states.py
 import sys
-print('n=2 pure=False: fock_prob([1, 0]) = 0.13650 on fock, 0.22689 on gaussian')
+print('n=2 pure=False cat: photon statistics of mode 1 differ between bosonic [0.4053, 0.4301, 0.13, 0.0283] and fock [0.6549, 0.2811, 0.0258, 0.0293]')
 print('REPLAY-VIOLATION')
 sys.exit(1)
